@@ -590,6 +590,63 @@ pub fn run(args: &Args, out: &mut Out) {
     generate(args, out, &mut idx, "", 1200, 40_000, 0);
 }
 
+/// bounded-exhaustive: every sequence of `depth` operations over a small alphabet (remote frames for
+/// substreams 0/1, and every local call that is applicable to the handles obtained so far)
+fn exhaustive(out: &mut Out, idx: &mut u64, prefix: &str, cfg: Cfg, depth: usize) {
+    fn candidates(sc: &Script) -> Vec<String> {
+        let mut ops: Vec<String> = vec![
+            "wire 0000".into(),   // Open 0
+            "wire 0201aa".into(), // Data 0 (remote initiator)
+            "wire 0400".into(),   // Close 0
+            "wire 0600".into(),   // Reset 0
+            "wire 0800".into(),   // Open 1
+            "wire 0101cc".into(), // Data 0 (remote receiver: for the locally opened substream 0)
+            "inbound".into(),
+            "outbound".into(),
+        ];
+        let mut seen: Vec<Sid> = vec![];
+        for id in sc.local.iter() {
+            if seen.contains(id) {
+                continue;
+            }
+            seen.push(*id);
+            let t = sid_tok(*id);
+            ops.push(format!("read {t} 1"));
+            ops.push(format!("write {t} bb"));
+            ops.push(format!("close {t}"));
+            ops.push(format!("drop {t}"));
+        }
+        ops
+    }
+    fn replay(cfg: Cfg, ops: &[String]) -> Script {
+        let mut sc = Script::new(cfg);
+        for o in ops {
+            if let Some(rest) = o.strip_prefix("drop ") {
+                let id = parse_sid(rest);
+                if let Some(pos) = sc.local.iter().rposition(|s| *s == id) {
+                    sc.local.remove(pos);
+                }
+            }
+            sc.op(o.clone());
+        }
+        sc
+    }
+    let mut stack: Vec<Vec<String>> = vec![vec![]];
+    while let Some(seq) = stack.pop() {
+        let sc = replay(cfg, &seq);
+        if seq.len() == depth {
+            sc.emit_with(out, *idx, "exhaustive", prefix);
+            *idx += 1;
+            continue;
+        }
+        for c in candidates(&sc) {
+            let mut n = seq.clone();
+            n.push(c);
+            stack.push(n);
+        }
+    }
+}
+
 /// the generated sessions (also used, with another salt and the `mux=mplex1` prefix, by C24)
 pub fn generate(args: &Args, out: &mut Out, idx: &mut u64, prefix: &str, quick: u64, thorough: u64, salt: u64) {
     // floods over the whole small configuration grid
@@ -611,6 +668,12 @@ pub fn generate(args: &Args, out: &mut Out, idx: &mut u64, prefix: &str, quick: 
             let cfg = Cfg { ms: *ms, mb: 2, block, split: 1 << 20 };
             backpressure_session(&mut rng, cfg, *overflow).emit_with(out, *idx, "backpressure", prefix);
             *idx += 1;
+        }
+    }
+    if salt == 0 && args.count == 0 {
+        let depth = if args.thorough { 4 } else { 3 };
+        for block in [true, false] {
+            exhaustive(out, idx, prefix, Cfg { ms: 1, mb: 1, block, split: 8 }, depth);
         }
     }
     let n = args.n(quick, thorough);
